@@ -1,6 +1,7 @@
 """C10 - every offered fingerprint completes a handshake with a compliant server.
 TLA+: spec/NegoMC.tla (Mode c10: the full product of offered x implemented choices per predefined parrot,
 invariant CompliantCompletes), spec/NegoTrace.tla (progress kinds)."""
+import re
 import nego_common as nc, vlib
 
 def classify(ctx, rej, scns, events, kinds_wanted, prop):
@@ -22,8 +23,9 @@ def run(ctx):
     scns, events, rej, unadv, mc = nc.run_nego(ctx, "c10", subset=subset, shards=12)
     for r, s, d in classify(ctx, rej, scns, events, ("progress",), "C10"):
         err = (r["result"] or {}).get("cerr", "")
-        grp = "shared-group-%d" % s["group"] if "invalid server key share" in err else "other"
-        ctx.finding("progress:%s:%s:%s:v%d" % (d, grp, s["id"], s["ver"]),
+        grp = ("shared-group-%d" % s["group"] if "invalid server key share" in err
+               else "hrr-to-hybrid-group-%d" % s["group"] if "CurvePreferences includes unsupported curve" in err else "other")
+        ctx.finding("progress:%s:%s:%s:v%d" % (d, grp, re.sub(r"@\d+", "@seed", s["id"]), s["ver"]),
                     "compliant server choice offered by %s is not completed: %s (client error: %s)" % (s["id"], d, err),
                     {"scenario": nc.scn_brief(s), "result": r["result"]})
     res = [e for e in events if e["ev"] == "Result"]
